@@ -14,7 +14,7 @@ def setup(ctx):
 
 def gen_cases(tier, seed):
     thorough = tier == "thorough"
-    n_own = 12000 if thorough else 1200
+    n_own = 30000 if thorough else 1200
     for k in range(n_own):
         r = rng(seed, "tape", "own", k)
         nf = r.choice([0, 1, 1, 2, 2, 3, 4, 6])
@@ -32,7 +32,7 @@ def gen_cases(tier, seed):
         for k in range(300):
             r = rng(seed, "tape", "big", k)
             yield {"id": "big/%d" % k, "kind": "own", "files": [G.gen_file(r, "tape", length=r.choice([65535, 65534, 32768, 40000, r.randrange(1300, 65536)]))]}
-    for k in range(12000 if thorough else 1200):
+    for k in range(30000 if thorough else 1200):
         r = rng(seed, "tape", "foreign", k)
         nf = r.choice([0, 1, 1, 2, 3, 4])
         specs = [G.gen_file(r, "tape") for _ in range(nf)]
